@@ -338,6 +338,7 @@ def evaluate(kind, param, flux, L, R, res=None):
     out = []
     base = "C02/%s/%s" % (M.name, flux if flux is not None else "builtin")
     n = L.shape[1]
+    L0, R0 = L.copy(), R.copy()
     with np.errstate(all="ignore"):
         F = M.F(flux, L, R)
         mL, mR = M.mirror(R), M.mirror(L)
@@ -346,6 +347,9 @@ def evaluate(kind, param, flux, L, R, res=None):
         fL, fR = M.phys(L), M.phys(R)
         pos, neg = M.regime(L, R)
         br = M.branch(L, R)
+    if not (np.array_equal(L, L0, equal_nan=True) and np.array_equal(R, R0, equal_nan=True)):
+        out.append((base + "/modifies-its-input", "%s %s: numflux changed the face states it was given" % (M.name, M.tag()), 0))
+        L, R = L0, R0
     same = np.all(L == R, axis=0)
     isup = flux in M.upwind
     for k, comp in enumerate(M.comps):
